@@ -19,7 +19,7 @@ Print Assumptions C05_next_price_quote_out.
 
 Theorem C05_next_price_base_in : forall sp liq amt n,
   0 <= amt -> 0 < sp -> 0 < liq -> next_sqrt_from_base_in_up sp liq amt = Some n ->
-  liq * sp * P <= n * (liq * P + amt * sp).
+  liq * sp * P <= n * (liq * P + amt * sp) /\ n <= sp.
 Proof. exact next_base_in_up_ge. Qed.
 Print Assumptions C05_next_price_base_in.
 
